@@ -67,11 +67,19 @@ const WIDE1: &[ShapeClass] = &[ShapeClass {
 	methods: &[ShapeMethod { name: "m", desc: "()V", params: &[] }, ShapeMethod { name: "m", desc: "(II)V", params: &[0, 1] }],
 }];
 
+/// three entries in one map (three classes, three fields, three parameters): rotations of the insertion order
+const WIDE3: &[ShapeClass] = &[
+	ShapeClass { key: "K", fields: &[("f", "I"), ("f", "J"), ("g", "I")], methods: &[ShapeMethod { name: "m", desc: "(III)V", params: &[0, 1, 2] }] },
+	ShapeClass { key: "L", fields: &[], methods: &[] },
+	ShapeClass { key: "M", fields: &[], methods: &[] },
+];
+
 fn shape_by_name(n: &str) -> &'static [ShapeClass] {
 	match n {
 		"deep" => DEEP,
 		"wide" => WIDE,
 		"wide1" => WIDE1,
+		"wide3" => WIDE3,
 		_ => vcore::machinery_fail("unknown shape"),
 	}
 }
@@ -248,12 +256,13 @@ fn sweeps(tier: vcore::Tier) -> Vec<Sweep> {
 		},
 		vcore::Tier::Thorough => {
 			v.push(sweep("t-deep", "deep", SideOpts { targets: BOTH, docs: DOCS3, param_src: SRC3 }, SideOpts { targets: BOTH, docs: DOCS3, param_src: SRC3 }, Mode::Plain, one));
-			v.push(sweep("t-wide-orders", "wide", simple(), simple(), Mode::Plain, six));
+			v.push(sweep("t-wide-orders", "wide", simple(), simple(), Mode::Plain, four));
 			v.push(sweep("t-wide1-names-orders", "wide1", SideOpts { targets: BOTH, docs: DOCS0, param_src: SRC1 }, SideOpts { targets: BOTH, docs: DOCS0, param_src: SRC1 }, Mode::Plain, four));
 			v.push(sweep("t-wide1-comments-orders", "wide1", SideOpts { targets: NAMED, docs: DOCS2, param_src: SRC1 }, SideOpts { targets: NAMED, docs: DOCS2, param_src: SRC1 }, Mode::Plain, &four[..2]));
 		},
 	}
 	// the same in both tiers (small)
+	v.push(sweep("wide3-rotated-orders", "wide3", simple(), simple(), Mode::Plain, six));
 	v.push(sweep("wide-top-comments", "wide", simple(), simple(), Mode::TopDocs, one));
 	v.push(sweep("wide-first-namespace-differs", "wide", simple(), simple(), Mode::FirstNs, one));
 	v.push(sweep("wide-second-namespaces-equal", "wide", simple(), simple(), Mode::SecondNsEqual, one));
@@ -375,20 +384,43 @@ fn share(in_a: bool, in_b: bool) -> &'static str {
 	}
 }
 
-fn cmp_keys<K: Ord + std::fmt::Debug, V>(level: &str, at: &str, e: &BTreeMap<K, V>, r: &BTreeMap<K, V>, sh: impl Fn(&K) -> &'static str, out: &mut Diffs) {
-	for k in e.keys() {
-		if !r.contains_key(k) {
-			out.add(format!("result:{level}:missing[{}]", sh(k)), || format!("{level} {k:?}{at} is in the union of the keys but not in the result"));
+/// where an entry is: formatted only when a difference is reported
+#[derive(Clone, Copy, Default)]
+struct At<'a> {
+	class: Option<&'a String>,
+	member: Option<&'a (String, String)>,
+	param: Option<usize>,
+}
+
+impl std::fmt::Display for At<'_> {
+	fn fmt(&self, f: &mut std::fmt::Formatter<'_>) -> std::fmt::Result {
+		if let Some(p) = self.param {
+			write!(f, "{p} of ")?;
 		}
-	}
-	for k in r.keys() {
-		if !e.contains_key(k) {
-			out.add(format!("result:{level}:extra"), || format!("{level} {k:?}{at} is in the result but in neither input"));
+		if let Some(m) = self.member {
+			write!(f, "{m:?} of ")?;
+		}
+		match self.class {
+			Some(c) => write!(f, "class {c:?}"),
+			None => write!(f, "the mappings"),
 		}
 	}
 }
 
-fn cmp_entry(level: &str, at: &str, sh: &str, en: &Row, ed: &Option<String>, rn: &Row, rd: &Option<String>, out: &mut Diffs) {
+fn cmp_keys<K: Ord + std::fmt::Debug, V>(level: &str, at: At, e: &BTreeMap<K, V>, r: &BTreeMap<K, V>, sh: impl Fn(&K) -> &'static str, out: &mut Diffs) {
+	for k in e.keys() {
+		if !r.contains_key(k) {
+			out.add(format!("result:{level}:missing[{}]", sh(k)), || format!("{level} {k:?} (in {at}) is in the union of the keys but not in the result"));
+		}
+	}
+	for k in r.keys() {
+		if !e.contains_key(k) {
+			out.add(format!("result:{level}:extra"), || format!("{level} {k:?} (in {at}) is in the result but in neither input"));
+		}
+	}
+}
+
+fn cmp_entry(level: &str, at: At, sh: &str, en: &Row, ed: &Option<String>, rn: &Row, rd: &Option<String>, out: &mut Diffs) {
 	if en != rn {
 		out.add(format!("result:{level}.names[{sh}]"), || format!("{level} {at}: expected names {en:?}, got {rn:?}"));
 	}
@@ -405,29 +437,29 @@ fn compare(e: &MSet, r: &MSet, a: &MSet, b: &MSet, out: &mut Diffs) {
 	if e.doc != r.doc {
 		out.add("result:mappings.comment".into(), || format!("expected mappings comment {:?}, got {:?}", e.doc, r.doc));
 	}
-	cmp_keys("class", "", &e.classes, &r.classes, |k| share(a.classes.contains_key(k), b.classes.contains_key(k)), out);
+	cmp_keys("class", At::default(), &e.classes, &r.classes, |k| share(a.classes.contains_key(k), b.classes.contains_key(k)), out);
 	for (k, ec) in &e.classes {
 		let Some(rc) = r.classes.get(k) else { continue };
 		let (ca, cb) = (a.classes.get(k), b.classes.get(k));
-		cmp_entry("class", &format!("{k:?}"), share(ca.is_some(), cb.is_some()), &ec.names, &ec.doc, &rc.names, &rc.doc, out);
-		let at = format!(" of class {k:?}");
-		cmp_keys("field", &at, &ec.fields, &rc.fields, |fk| share(ca.is_some_and(|c| c.fields.contains_key(fk)), cb.is_some_and(|c| c.fields.contains_key(fk))), out);
-		cmp_keys("method", &at, &ec.methods, &rc.methods, |mk| share(ca.is_some_and(|c| c.methods.contains_key(mk)), cb.is_some_and(|c| c.methods.contains_key(mk))), out);
+		let at = At { class: Some(k), ..At::default() };
+		cmp_entry("class", at, share(ca.is_some(), cb.is_some()), &ec.names, &ec.doc, &rc.names, &rc.doc, out);
+		cmp_keys("field", at, &ec.fields, &rc.fields, |fk| share(ca.is_some_and(|c| c.fields.contains_key(fk)), cb.is_some_and(|c| c.fields.contains_key(fk))), out);
+		cmp_keys("method", at, &ec.methods, &rc.methods, |mk| share(ca.is_some_and(|c| c.methods.contains_key(mk)), cb.is_some_and(|c| c.methods.contains_key(mk))), out);
 		for (fk, ef) in &ec.fields {
 			let Some(rf) = rc.fields.get(fk) else { continue };
 			let sh = share(ca.is_some_and(|c| c.fields.contains_key(fk)), cb.is_some_and(|c| c.fields.contains_key(fk)));
-			cmp_entry("field", &format!("{fk:?}{at}"), sh, &ef.names, &ef.doc, &rf.names, &rf.doc, out);
+			cmp_entry("field", At { member: Some(fk), ..at }, sh, &ef.names, &ef.doc, &rf.names, &rf.doc, out);
 		}
 		for (mk, em) in &ec.methods {
 			let Some(rm) = rc.methods.get(mk) else { continue };
 			let (ma, mb) = (ca.and_then(|c| c.methods.get(mk)), cb.and_then(|c| c.methods.get(mk)));
-			cmp_entry("method", &format!("{mk:?}{at}"), share(ma.is_some(), mb.is_some()), &em.names, &em.doc, &rm.names, &rm.doc, out);
-			let at = format!(" of method {mk:?}{at}");
-			cmp_keys("parameter", &at, &em.params, &rm.params, |pk| share(ma.is_some_and(|m| m.params.contains_key(pk)), mb.is_some_and(|m| m.params.contains_key(pk))), out);
+			let at = At { member: Some(mk), ..at };
+			cmp_entry("method", at, share(ma.is_some(), mb.is_some()), &em.names, &em.doc, &rm.names, &rm.doc, out);
+			cmp_keys("parameter", at, &em.params, &rm.params, |pk| share(ma.is_some_and(|m| m.params.contains_key(pk)), mb.is_some_and(|m| m.params.contains_key(pk))), out);
 			for (pk, ep) in &em.params {
 				let Some(rp) = rm.params.get(pk) else { continue };
 				let sh = share(ma.is_some_and(|m| m.params.contains_key(pk)), mb.is_some_and(|m| m.params.contains_key(pk)));
-				cmp_entry("parameter", &format!("{pk}{at}"), sh, &ep.names, &ep.doc, &rp.names, &rp.doc, out);
+				cmp_entry("parameter", At { param: Some(*pk), ..at }, sh, &ep.names, &ep.doc, &rp.names, &rp.doc, out);
 			}
 		}
 	}
@@ -459,7 +491,7 @@ struct Law<'a> {
 
 impl Law<'_> {
 	/// an entry of the side must reappear unchanged (its comment, when the side has none, may be the other side's)
-	fn same(&mut self, level: &str, at: &str, names_ok: bool, own: (&Row, &Option<String>), other_doc: Option<&Option<String>>, got: (&Row, &Option<String>)) {
+	fn same(&mut self, level: &str, at: At, names_ok: bool, own: (&Row, &Option<String>), other_doc: Option<&Option<String>>, got: (&Row, &Option<String>)) {
 		let side = self.side;
 		if !names_ok {
 			self.out.add(format!("projection:{side}:{level}.names"), || format!("{level} {at} of {side}: names {:?} came back as {:?}", own.0, got.0));
@@ -472,12 +504,12 @@ impl Law<'_> {
 			self.out.add(format!("projection:{side}:{level}.comment"), || format!("{level} {at} of {side}: comment {:?} came back as {:?}", own.1, got.1));
 		}
 	}
-	fn lost(&mut self, level: &str, at: &str) {
+	fn lost(&mut self, level: &str, at: At) {
 		let side = self.side;
 		self.out.add(format!("projection:{side}:{level}:lost"), || format!("{level} {at} of {side} is not in the projection of the result"));
 	}
 	/// an entry of the projection that the side does not have: its key must be in the other side, and it has no name of this side
-	fn extra(&mut self, level: &str, at: &str, in_other: bool, names: &Row) {
+	fn extra(&mut self, level: &str, at: At, in_other: bool, names: &Row) {
 		let side = self.side;
 		if !in_other {
 			self.out.add(format!("projection:{side}:{level}:invented"), || format!("{level} {at} of the projection is in neither input"));
@@ -496,61 +528,63 @@ fn projection_law(side: &'static str, own: &MSet, other: &MSet, proj: &MSet, out
 	if proj.ns != own.ns {
 		law.out.add(format!("projection:{side}:namespaces"), || format!("namespaces {:?} came back as {:?}", own.ns, proj.ns));
 	}
-	law.same("mappings", "", true, (&vec![], &own.doc), Some(&other.doc), (&vec![], &proj.doc));
+	law.same("mappings", At::default(), true, (&vec![], &own.doc), Some(&other.doc), (&vec![], &proj.doc));
 	for (k, c) in &own.classes {
+		let at = At { class: Some(k), ..At::default() };
 		let Some(pc) = proj.classes.get(k) else {
-			law.lost("class", &format!("{k:?}"));
+			law.lost("class", at);
 			continue;
 		};
 		let oc = other.classes.get(k);
-		law.same("class", &format!("{k:?}"), pc.names == c.names, (&c.names, &c.doc), oc.map(|c| &c.doc), (&pc.names, &pc.doc));
+		law.same("class", at, pc.names == c.names, (&c.names, &c.doc), oc.map(|c| &c.doc), (&pc.names, &pc.doc));
 		for (fk, f) in &c.fields {
-			let at = format!("{fk:?} of {k:?}");
+			let at = At { member: Some(fk), ..at };
 			match pc.fields.get(fk) {
-				None => law.lost("field", &at),
-				Some(pf) => law.same("field", &at, pf.names == f.names, (&f.names, &f.doc), oc.and_then(|c| c.fields.get(fk)).map(|f| &f.doc), (&pf.names, &pf.doc)),
+				None => law.lost("field", at),
+				Some(pf) => law.same("field", at, pf.names == f.names, (&f.names, &f.doc), oc.and_then(|c| c.fields.get(fk)).map(|f| &f.doc), (&pf.names, &pf.doc)),
 			}
 		}
 		for (mk, m) in &c.methods {
-			let at = format!("{mk:?} of {k:?}");
+			let at = At { member: Some(mk), ..at };
 			let Some(pm) = pc.methods.get(mk) else {
-				law.lost("method", &at);
+				law.lost("method", at);
 				continue;
 			};
 			let om = oc.and_then(|c| c.methods.get(mk));
-			law.same("method", &at, pm.names == m.names, (&m.names, &m.doc), om.map(|m| &m.doc), (&pm.names, &pm.doc));
+			law.same("method", at, pm.names == m.names, (&m.names, &m.doc), om.map(|m| &m.doc), (&pm.names, &pm.doc));
 			for (pk, p) in &m.params {
-				let at = format!("{pk} of {at}");
+				let at = At { param: Some(*pk), ..at };
 				let Some(pp) = pm.params.get(pk) else {
-					law.lost("parameter", &at);
+					law.lost("parameter", at);
 					continue;
 				};
 				let op = om.and_then(|m| m.params.get(pk));
 				// a first name that only the other side has may (must, see `compare`) be kept
 				let first_ok = pp.names[0] == p.names[0] || (p.names[0].is_none() && op.is_some_and(|o| o.names[0] == pp.names[0]));
-				law.same("parameter", &at, first_ok && pp.names[1] == p.names[1], (&p.names, &p.doc), op.map(|p| &p.doc), (&pp.names, &pp.doc));
+				law.same("parameter", at, first_ok && pp.names[1] == p.names[1], (&p.names, &p.doc), op.map(|p| &p.doc), (&pp.names, &pp.doc));
 			}
 		}
 	}
 	// extras
 	for (k, pc) in &proj.classes {
 		let (c, oc) = (own.classes.get(k), other.classes.get(k));
+		let at = At { class: Some(k), ..At::default() };
 		if c.is_none() {
-			law.extra("class", &format!("{k:?}"), oc.is_some(), &pc.names);
+			law.extra("class", at, oc.is_some(), &pc.names);
 		}
 		for (fk, pf) in &pc.fields {
 			if !c.is_some_and(|c| c.fields.contains_key(fk)) {
-				law.extra("field", &format!("{fk:?} of {k:?}"), oc.is_some_and(|c| c.fields.contains_key(fk)), &pf.names);
+				law.extra("field", At { member: Some(fk), ..at }, oc.is_some_and(|c| c.fields.contains_key(fk)), &pf.names);
 			}
 		}
 		for (mk, pm) in &pc.methods {
 			let (m, om) = (c.and_then(|c| c.methods.get(mk)), oc.and_then(|c| c.methods.get(mk)));
 			if m.is_none() {
-				law.extra("method", &format!("{mk:?} of {k:?}"), om.is_some(), &pm.names);
+				law.extra("method", At { member: Some(mk), ..at }, om.is_some(), &pm.names);
 			}
 			for (pk, pp) in &pm.params {
 				if !m.is_some_and(|m| m.params.contains_key(pk)) {
-					law.extra("parameter", &format!("{pk} of {mk:?} of {k:?}"), om.is_some_and(|m| m.params.contains_key(pk)), &pp.names);
+					law.extra("parameter", At { member: Some(mk), param: Some(*pk), ..at }, om.is_some_and(|m| m.params.contains_key(pk)), &pp.names);
 				}
 			}
 		}
@@ -739,8 +773,17 @@ fn show_real(r: &Result<Real, vcore::Panic>) -> String {
 	}
 }
 
-/// Runs one case through the real code and the oracle; returns a digest of what was observed.
-fn run_case(ctx: &Ctx, sw: &Sweep, ia: usize, ib: usize, x: u64, st: &mut Stats, t: &mut Tally) -> u64 {
+fn digest_of(r: &Result<Real, vcore::Panic>) -> u64 {
+	match r {
+		Err(p) => vcore::hash64(&(0, &p.site, &p.msg)),
+		Ok(Err(k)) => vcore::hash64(&(1, &k.0)),
+		Ok(Ok(Err(e))) => vcore::hash64(&(2, e)),
+		Ok(Ok(Ok(s))) => vcore::hash64(&(3, s)),
+	}
+}
+
+/// the two inputs of a case (well-formed model sets; `Mode::Mutate` changes the real objects later)
+fn inputs(sw: &Sweep, ia: usize, ib: usize, x: u64) -> (MSet, MSet) {
 	let mut a = sw.a[ia].clone();
 	let mut b = sw.b[ib].clone();
 	match sw.mode {
@@ -755,6 +798,12 @@ fn run_case(ctx: &Ctx, sw: &Sweep, ia: usize, ib: usize, x: u64, st: &mut Stats,
 		},
 		Mode::SecondNsEqual => b.ns = vec!["s".to_owned(), "a".to_owned()],
 	}
+	(a, b)
+}
+
+/// Runs one case through the real code and the oracle; returns a digest of what was observed.
+fn run_case(ctx: &Ctx, sw: &Sweep, ia: usize, ib: usize, x: u64, st: &mut Stats, t: &mut Tally) -> u64 {
+	let (a, b) = inputs(sw, ia, ib, x);
 	let (a, b) = (&a, &b);
 	let text = |extra: &str| case_text(sw, ia, ib, x, a, b, extra);
 
@@ -788,7 +837,7 @@ fn run_case(ctx: &Ctx, sw: &Sweep, ia: usize, ib: usize, x: u64, st: &mut Stats,
 			(Ok(Ok(Err(_))), None) => t.count("inconsistent-input(unjudged):refused"),
 			(Ok(_), None) => t.count("inconsistent-input(unjudged):merged"),
 		}
-		return vcore::hash64(&show_real(&real));
+		return digest_of(&real);
 	}
 
 	let expect = reference_merge(a, b);
@@ -797,7 +846,7 @@ fn run_case(ctx: &Ctx, sw: &Sweep, ia: usize, ib: usize, x: u64, st: &mut Stats,
 	for (oi, (oa, ob)) in sw.orders.iter().enumerate() {
 		st.eval();
 		let real = real_merge(a, b, *oa, *ob, None, true);
-		digest = digest.wrapping_mul(31).wrapping_add(vcore::hash64(&show_real(&real)));
+		digest = digest.wrapping_mul(31).wrapping_add(digest_of(&real));
 		let what = || format!("\ninsertion orders: A {oa:?}, B {ob:?}\nreal: {}", show_real(&real));
 		let verdict: Result<MSet, ()> = match &real {
 			Err(p) => {
@@ -876,14 +925,12 @@ fn run_case(ctx: &Ctx, sw: &Sweep, ia: usize, ib: usize, x: u64, st: &mut Stats,
 				if !a.classes.is_empty() && !b.classes.is_empty() {
 					t.count("ok:both-sides-contributed");
 					st.distinct.add(&r);
-					let mut kinds = [false; 4];
-					for k in union_keys(Some(&a.classes), Some(&b.classes)) {
-						kinds[combo(a.classes.contains_key(k), b.classes.contains_key(k))] = true;
+					let mut probe = Tally::default();
+					tally_sharing(sw.shape, a, b, &mut probe);
+					if (1..4).all(|c| probe.sharing.iter().any(|l| l[c] > 0)) {
+						t.count("ok:entries-of-all-three-kinds");
 					}
-					if kinds[1] && kinds[2] && kinds[3] {
-						t.count("ok:classes-of-all-three-kinds");
-					}
-					st.sample(&format!("ok:{:?}", sw.mode), || json!({"kind": "merged-pair", "case": text(&what())}));
+					st.sample(match sw.mode { Mode::Plain => "ok:plain", Mode::TopDocs => "ok:top-comments", _ => "ok:other" }, || json!({"kind": "merged-pair", "case": text(&what())}));
 				}
 				if sw.orders.len() > 1 && (order_matters(a) || order_matters(b)) {
 					t.count("order:pairs-with-more-than-one-entry-at-a-level");
@@ -946,7 +993,7 @@ fn main() {
 		ctx.floor(&format!("refusals whose only conflict is {class}"), 1, total.get(&format!("err:{class}")));
 	}
 	ctx.floor("successful merges to which both sides contributed", 1000, total.get("ok:both-sides-contributed"));
-	ctx.floor("successful merges with A-only, B-only and shared classes at once", 100, total.get("ok:classes-of-all-three-kinds"));
+	ctx.floor("successful merges with A-only, B-only and shared entries at once", 100, total.get("ok:entries-of-all-three-kinds"));
 	ctx.floor("merged entries whose comment came from A only", 100, total.get("merged-comment:from-A"));
 	ctx.floor("merged entries whose comment came from B only", 100, total.get("merged-comment:from-B"));
 	ctx.floor("merged entries with the same comment on both sides", 100, total.get("merged-comment:equal-on-both-sides"));
@@ -990,6 +1037,19 @@ fn replay(ctx: &'static Ctx, path: &std::path::Path) -> ! {
 	let d2 = run_case(ctx, &sw, ia, ib, x, &mut Stats::new(), &mut Tally::default());
 	if d1 != d2 {
 		vcore::machinery_fail("replay is not deterministic");
+	}
+	let (a, b) = inputs(&sw, ia, ib, x);
+	println!("{}", case_text(&sw, ia, ib, x, &a, &b, ""));
+	if sw.mode == Mode::Mutate {
+		let (m, side) = (MUTATIONS[x as usize / 2], if x % 2 == 0 { Side::B } else { Side::A });
+		println!("stored value overwritten: {m:?} of side {side:?}");
+		if has_target(if side == Side::A { &a } else { &b }, &target_of(sw.shape), m) {
+			println!("real: {}", show_real(&real_merge(&a, &b, Order::Sorted, Order::Sorted, Some((m, side, &target_of(sw.shape))), true)));
+		}
+	} else {
+		let e = reference_merge(&a, &b);
+		println!("real: {}
+reference: must be refused for {:?}, may be refused for {:?}, otherwise:\n{}", show_real(&real_merge(&a, &b, Order::Sorted, Order::Sorted, None, true)), e.must_err, e.may_err, render(&e.set));
 	}
 	ctx.finish(json!({"evaluations": st.evaluations, "distinct_nontrivial": 1, "rule": "replay of one case", "samples": ["replay"], "exhaustive": false}), &[]);
 }
